@@ -226,7 +226,7 @@ macro_rules! impl_traits {
 
         impl Sampleable<$kind> for Laplace {
             fn draw<R: Rng>(&self, rng: &mut R) -> $kind {
-                let u = rng.sample(rand_distr::OpenClosed01);
+                let u = rng.sample(rand_distr::Open01);
                 self.b.mul_add(-laplace_partial_draw(u), self.mu) as $kind
             }
         }
